@@ -24,7 +24,7 @@ from xmlschema.aliases import ComponentClassType, ElementType, \
 from xmlschema.exceptions import XMLSchemaValueError
 from xmlschema.translation import gettext as _
 from xmlschema.utils.decoding import EmptyType
-from xmlschema.utils.qnames import get_namespace, get_qname
+from xmlschema.utils.qnames import get_namespace, get_qname, get_extended_qname
 
 from .exceptions import XMLSchemaCircularityError
 from .validation import ValidationContext, DecodeContext, EncodeContext, ValidationMixin
@@ -238,6 +238,19 @@ class XsdAttribute(XsdComponent, ValidationMixin[Optional[str], DecodedValueType
         """Returns the decoded data value of the provided text as XPath fn:data()."""
         return cast(AtomicValueType, self.decode(text, validation='skip'))
 
+    def _is_fixed_value(self, obj: str, context: ValidationContext) -> bool:
+        """Tests if a text is equal to the fixed value, in the value space of the type."""
+        assert self.fixed is not None
+        if self.type.is_qname() or self.type.is_notation():
+            # The value space of xs:QName and xs:NOTATION is made of (namespace name,
+            # local part) pairs: the fixed value is resolved with the namespaces of
+            # the schema, the other one with the namespaces in scope in the instance.
+            return get_extended_qname(self.type.normalize(obj), context.namespaces) == \
+                get_extended_qname(self.type.normalize(self.fixed), self.namespaces)
+
+        return obj == self.fixed or \
+            self.type.text_decode(obj, context=context) == self.type.text_decode(self.fixed)
+
     def raw_decode(self, obj: Optional[str], validation: str, context: ValidationContext) \
             -> DecodedValueType:
         if obj is None and self.default is not None:
@@ -255,9 +268,7 @@ class XsdAttribute(XsdComponent, ValidationMixin[Optional[str], DecodedValueType
         if self.fixed is not None:
             if obj is None:
                 obj = self.fixed
-            elif obj != self.fixed and \
-                    self.type.text_decode(obj, context=context) != \
-                    self.type.text_decode(self.fixed):
+            elif not self._is_fixed_value(obj, context):
                 msg = _("attribute {0!r} has a fixed value {1!r}").format(self.name, self.fixed)
                 context.validation_error(validation, self, msg, obj)
 
@@ -682,6 +693,7 @@ class XsdAttributeGroup(
             (k, v) for k, v in self.iter_value_constraints(context.use_defaults)
             if k not in obj
         ]
+        injected = {k for k, _ in additional_attrs}
         if additional_attrs:
             obj = {k: v for k, v in obj.items()}
             obj.update(additional_attrs)
@@ -730,7 +742,13 @@ class XsdAttributeGroup(
                         context.validation_error(validation, self, reason, obj)
 
             context.attribute = name
-            item = xsd_attribute.raw_decode(value, validation, context)
+            if name in injected and isinstance(xsd_attribute, XsdAttribute) and \
+                    (xsd_attribute.type.is_qname() or xsd_attribute.type.is_notation()):
+                # The value constraint of an absent attribute is a literal of the schema:
+                # its prefix must not be resolved with the namespaces of the instance.
+                item = xsd_attribute.raw_decode(value, 'skip', context)
+            else:
+                item = xsd_attribute.raw_decode(value, validation, context)
             if result is not None and not isinstance(item, EmptyType):
                 result.append((name, item))
             context.attribute = None
